@@ -20,22 +20,23 @@ L_DT2 = ("lit", "1", None, "http://dt#2")
 L_XSD = ("lit", "x", None, XSD_STRING)
 QT = ("triple", I_AX, I_AY, L_DT1)
 QT2 = ("triple", B1, I_BX, ("triple", I_URN, I_AY, L_LANG))
+QT3 = ("triple", I_AX, I_AY, L_LANG)   # shares subject and predicate positions with QT
 DEF = ("default",)
 
 ALPH = {
     # generic API (generalized + RDF-star)
     "gS": [I_AX, I_BX, B1, QT, L_PLAIN],
-    "gP": [I_AY, I_URN, I_EMPTY],
-    "gO": [I_AX, L_PLAIN, L_LANG, L_DT1, L_DT2, L_XSD, B1, QT, I_ANAME0, I_UNI, L_EMPTY, B2],
+    "gP": [I_AY, I_URN, I_EMPTY, I_AX],   # I_AX also occurs as object of a spine: predicate == previous object
+    "gO": [I_AX, L_PLAIN, L_LANG, L_DT1, L_DT2, L_XSD, B1, QT, I_ANAME0, I_UNI, L_EMPTY, B2, QT3],
     "gG": [DEF, I_AX, B1, L_DT1],
     # reduced
     "gS3": [I_AX, I_BX, B1],
-    "gO5": [I_AX, L_PLAIN, L_DT1, L_XSD, QT, L_EMPTY],
+    "gO5": [I_AX, L_PLAIN, L_DT1, L_XSD, QT, L_EMPTY, QT3],
     "gO4": [I_AY, L_LANG, L_DT2, I_UNI],
     "gG3": [DEF, I_AX, B1],
     # rdflib (RDF 1.1)
     "rS": [I_AX, I_BX, B1],
-    "rP": [I_AY, I_URN],
+    "rP": [I_AY, I_URN, I_AX],
     "rO": [I_AX, L_PLAIN, L_LANG, L_DT1, L_DT2, L_XSD, B1, I_UNI, L_EMPTY],
     "rG": [DEF, I_AX, B1],
     "rG4": [DEF, I_AX, B1, ("bnode", "http://a/x")],   # a blank node whose label equals an IRI used as graph name
